@@ -124,8 +124,10 @@ def parts(tier):
     for a in ('server.disconnect', 'client-DISCONNECT'):
         for o in ('other-namespace-disconnect', 'other-namespace-client-DISCONNECT'):
             out.append({'acts': [a, o]})
-    out = [dict(p, pre=[a, b, c], eio_points=(tier == 'thorough')) for p in out
-           for a in (0, 1) for b in (0, 1) for c in (0, 1)]
+    heavy = lambda p: sorted(p['acts']) == ['server.disconnect', 'transport-loss']
+    import itertools
+    out = [dict(p, pre=list(bits), eio_points=(tier == 'thorough' or heavy(p))) for p in out
+           for bits in itertools.product((0, 1), repeat=5 if heavy(p) else 3)]
     if tier == 'thorough':
         main_pairs = [['server.disconnect', 'client-DISCONNECT'], ['server.disconnect', 'transport-loss'],
                       ['client-DISCONNECT', 'transport-loss'], ['server.disconnect', 'server.disconnect']]
@@ -147,7 +149,8 @@ META = dict(
                 'schedule is the only symbolic input): this is systematic schedule enumeration driven by the solver.',
     bounds={'quick': 'all schedules of every pair from {server.disconnect, client DISCONNECT, transport loss} on the '
                      'same sid and of each with a disconnect of the transport\'s other namespace; pre-emption before '
-                     'every manager call and inside the disconnect handler',
+                     'every manager call and inside the disconnect handler (for server.disconnect || transport loss also '
+                     'before every engine.io call)',
             'thorough': 'plus pre-emption before every engine.io call, plus pre-emption inside manager.disconnect (before '
                         'every nested leave_room), plus three triples of concurrent actions '
                         '(triples are budgeted, not exhausted)'},
